@@ -13,4 +13,5 @@ func init() {
 	mut("C18", "swap-outside-lock", "trafficshape/handler.go", "\th.l.Shapes.Lock()\n\n\th.l.Shapes.LastModifiedTime = time.Now()\n", "\th.l.Shapes.LastModifiedTime = time.Now()\n\th.l.Shapes.Lock()\n\n", "C18.R1", "")
 	mut("C18", "inner-max-shadowed", "trafficshape/conn.go", "\t\t\t\tmax = min(rem, max)\n", "\t\t\t\tmax := min(rem, max)\n", "C18.R8", "advanced")
 	twin("C18", "advance-by-reported-count", "trafficshape/conn.go", "\t\ttotal += n\n\n\t\tb = b[max:]\n", "\t\ttotal += n\n\n\t\tb = b[n:]\n")
+	mut("C18", "close-early-return", "trafficshape/conn.go", "\t// The per-URL buckets are created for this connection alone; each owns a\n\t// ticker and a goroutine.\n\tfor _, b := range c.LocalBuckets {", "\tif err := c.conn.SetDeadline(time.Now()); err != nil {\n\t\treturn err\n\t}\n\tfor _, b := range c.LocalBuckets {", "C18.R7", "every exit")
 }
